@@ -973,6 +973,10 @@ struct Stats {
     oracle_fail: u64,
 }
 
+fn clip(s: String) -> String {
+    if s.len() > 3000 { format!("{}…(+{} chars)", &s[..3000], s.len() - 3000) } else { s }
+}
+
 fn fail(out: &mut Out, st: &mut Stats, what: &str, case: &Case) {
     st.oracle_fail += 1;
     let lhs = write_lhs(case);
@@ -1500,6 +1504,9 @@ fn main() {
     let mut shape_files = 0u64;
     let mut built_files = 0u64;
     let mut regrouped_files = 0u64;
+    let mut shuffled_rewrites = 0u64;
+    let mut shuffled_first_order_changed = 0u64;
+    let mut shuffle_rng = Rng::new(seed_from_env() ^ 0x5bd1_e995_c11d_e7);
     let mut x_identical = 0u64;
     let mut x_different = 0u64;
 
@@ -1564,6 +1571,61 @@ fn main() {
                 match build(&regrouped) {
                     Ok(b2) if b2 == bytes => {}
                     _ => fail(&mut out, &mut st, "the same entries inserted key by key in another key order give different bytes", case),
+                }
+            }
+        }
+        // `order_independent` on the implementation: the same inserts with the keys' FIRST-INSERTION ORDER SHUFFLED — a random
+        // interleaving of the per-key insert sequences (every key's inserts keep their relative order, re-inserts included),
+        // sent through a fresh TrieBuilder — must give the same bytes.  Own random stream: the main one is not disturbed.
+        {
+            let mut by_key: BTreeMap<Vec<u16>, std::collections::VecDeque<Ent>> = BTreeMap::new();
+            for e in &case.ents {
+                by_key.entry(e.key.clone()).or_default().push_back(e.clone());
+            }
+            if by_key.len() >= 2 {
+                let rounds = if case.ents.len() <= 400 { 2 } else { 1 };
+                for round in 0..rounds {
+                    let mut queues: Vec<std::collections::VecDeque<Ent>> = by_key.values().cloned().collect();
+                    let mut ents: Vec<Ent> = Vec::with_capacity(case.ents.len());
+                    if round == 0 {
+                        // a uniformly random merge of the per-key sequences: shuffle the multiset of key indices
+                        let mut slots: Vec<usize> = queues.iter().enumerate().flat_map(|(j, q)| std::iter::repeat(j).take(q.len())).collect();
+                        for j in (1..slots.len()).rev() {
+                            slots.swap(j, shuffle_rng.below(j as u64 + 1) as usize);
+                        }
+                        for j in slots {
+                            ents.push(queues[j].pop_front().unwrap());
+                        }
+                    } else {
+                        // the keys in a random order, each key's inserts together (first insertions exactly permuted)
+                        let mut order: Vec<usize> = (0..queues.len()).collect();
+                        for j in (1..order.len()).rev() {
+                            order.swap(j, shuffle_rng.below(j as u64 + 1) as usize);
+                        }
+                        for j in order {
+                            ents.extend(queues[j].drain(..));
+                        }
+                    }
+                    let first_keys = |es: &[Ent]| {
+                        let mut seen: Vec<&Vec<u16>> = vec![];
+                        for e in es {
+                            if !seen.contains(&&e.key) {
+                                seen.push(&e.key);
+                            }
+                        }
+                        seen.into_iter().cloned().collect::<Vec<_>>()
+                    };
+                    let shuffled = Case { info: case.info.clone(), ents };
+                    debug_assert_eq!(ref_map(&shuffled.ents), ref_map(&case.ents));
+                    shuffled_rewrites += 1;
+                    if by_key.len() <= 64 && first_keys(&shuffled.ents) != first_keys(&case.ents) {
+                        shuffled_first_order_changed += 1;
+                    }
+                    match build(&shuffled) {
+                        Ok(b2) if b2 == bytes => {}
+                        Ok(_) => fail(&mut out, &mut st, &format!("the same per-key insert sequences with the keys' first-insertion order shuffled give different bytes; shuffled input: {}", clip(write_lhs(&shuffled))), case),
+                        Err(e) => fail(&mut out, &mut st, &format!("the input with the keys' first-insertion order shuffled is not written ({}); shuffled input: {}", e, clip(write_lhs(&shuffled))), case),
+                    }
                 }
             }
         }
@@ -1727,6 +1789,8 @@ fn main() {
     out.stat("extreme_shape_files", shape_files);
     out.stat("files_via_build_path_and_open_path", built_files);
     out.stat("files_rebuilt_with_keys_in_another_order", regrouped_files);
+    out.stat("shuffled_rewrites", shuffled_rewrites);
+    out.stat("shuffled_rewrites_first_insertion_order_changed_of_files_with_at_most_64_keys", shuffled_first_order_changed);
     out.stat("first_n_lookups", st.first_n);
     out.stat("first_n_lookups_shorter_than_all", st.first_n_cut);
     out.stat("first_phrase_lookups", st.first_phrase);
